@@ -48,7 +48,7 @@ CHECKS = {
          "DESIGN.md §5 C10"),
  "C11": ("proptest sample arrays (structure generated, bulk from seeded PRNG) vs independent f64 split-R-hat reference; metamorphic relations (affine, permutation, cross-parameter bitwise, separation monotone/unbounded); NaN/summary fuzzing of basic_stats and RunStats; layout independence (Fortran-order, permuted, strided views)",
          EXPL + "Covers odd lengths, the 100-row switch, multimodal/trending/constant chains, NaN summaries of every length 1..256.",
-         "Within-half variance divisor (n or n-1) not fixed by the statement: both accepted; |loc|/scale <= 100; relative tolerance 1e-4*(1+|loc|/scale/10) calibrated on the pinned tree.",
+         "Within-half variance divisor (n or n-1) not fixed by the statement: both accepted; |loc|/scale up to 5000; relative tolerance 1e-4*(1+|loc|/scale/10) calibrated on the pinned tree.",
          "DESIGN.md §5 C11"),
  "C12": ("proptest sample arrays vs independent f64 Geyer reference with a monotone interval oracle in tau space; both autocovariance paths by construction (half-lengths 94..108 sweep), metamorphic relations (reversal, permutation, affine), ESS/N calibration on iid and AR(1); MultiChainTracker::stats(sample) vs RunStats::from(sample) for any tracker history",
          EXPL + "The interval oracle is sound because tau is monotone in every autocorrelation; it needs no ambiguity skipping.",
@@ -56,7 +56,7 @@ CHECKS = {
          "DESIGN.md §5 C12"),
  "C13": ("proptest update histories fed to ChainTracker / collect_rhat / MultiChainTracker, compared with f64 batch statistics at every prefix <= 64 and geometric checkpoints; EMA recurrence of p_accept",
          EXPL + "History-as-value: every prefix is an observation point, so off-by-one in n, n/(n-1), first-update handling and the R-hat denominators are visible for every parameter count.",
-         "Tolerance eps32*(32+4n)*(loc^2+scale^2) (worst-case linear accumulation); R-hat compared where that is < 5% of W; first p_accept value unconstrained.",
+         "Tolerance eps32*(64+8n)*(loc^2+scale^2) (worst-case linear accumulation); R-hat compared where that is < 5% of W; first p_accept value unconstrained.",
          "DESIGN.md §5 C13"),
  "C14": ("proptest histories on bounded-support / NaN-region targets: MH with injected u in (0,1) and wide proposals, HMC with step sizes up to overflow (injected and natural momenta), NUTS with forced step sizes up to overflow and real runs; oracle after every step: finite coordinates, finite closed-form log-density, bad candidates leave the state bitwise unchanged, no panic, returns (watchdog)",
          EXPL + "Candidates are learnt from proposal clones / the trace hook, so 'the candidate was bad' is known exactly and the state must be bitwise the old one.",
